@@ -6,9 +6,26 @@ import logging
 import sys
 from pathlib import Path
 
+import inspect
+from typing import Any
+
+from pulser.backend.observable import Observable
+
 unix_like = os.name != "nt"
 if unix_like:
     from resource import RUSAGE_SELF, getrusage
+
+
+def observable_aggregation_kwargs(method: str) -> dict[str, Any]:
+    """
+    pulser-core >= 1.9 requires every Observable to declare how its values are
+    combined over several results. Older versions do not know that argument.
+    """
+    if "default_aggregation_method" not in inspect.signature(Observable.__init__).parameters:
+        return {}
+    from pulser.backend.observable import AggregationMethod
+
+    return {"default_aggregation_method": AggregationMethod[method]}
 
 
 def init_logging(log_level: int, log_file: Path | None) -> logging.Logger:
